@@ -305,7 +305,7 @@ class Stacker(Transformer):
         )
 
         # Set dimensions and coordinates
-        self.dims_in = X.dims
+        self.dims_in = tuple(X.dims)
         self.coords_in = {dim: X.coords[dim] for dim in X.dims}
 
         return self
